@@ -319,7 +319,7 @@ def c01(res: Result):
     tasks += gadget_tasks("gc", rawpats[:1])
     for i, tt in enumerate(pool[:N(q, 120, 1500)]):
         tasks.append({"tid": f"c{i}", "tt": tt, "ops": rawpats[i % 3], "meta": "random net, unminimised candidates first"})
-    invs = ["Inv_C01", "Inv_WF", "Inv_HANG"]
+    invs = ["Inv_C01", "Inv_WF", "Inv_HANG", "Inv_QUERY"]
     res.cov["rule"] = ("Each of the six complete strategies with default settings on a fresh diagram, then seeds for every expanded node (also after "
                        "candidates were requested without minimisation, so that several candidates per attractor reach the symbolic elimination); TLC computes "
                        "the attractors (terminal SCCs of the asynchronous transition graph) from the truth tables and checks the bijection and that "
